@@ -507,16 +507,23 @@ SPECS["C17"] = {
 
 SPECS["C16"] = {
     "explanation": "SOCKET SENDER (graphite, statsdaemon): the real sender.Sender.Run / innerRun / cleanup run as a goroutine (engine's cooperative scheduler) against a scripted environment: "
-                   "every ConnFactory call and every conn.Write succeeds or fails by symbolic choice, each of 1..2 flush requests (streams with 1..2 pre-filled buffers, as Graphite hands "
-                   "them over) may be cancelled before the sender gets to it, the reconnect timer has always fired, and wherever a select has several ready cases every choice is explored "
-                   "(schedule variable); then the sender is shut down. Asserted: every request handed to the sink gets its completion callback exactly once; no error is reported when the "
-                   "transport never failed and the request was not cancelled. OTLP (HTTP): the real SendMetricsAsync / postMetrics retry loop (errgroup, real back-off against the symbolic "
-                   "clock, max-retries 0..2) against a symbolic per-attempt fault script {200, connection error, 503} for 1..2 batches: callback exactly once, an error whenever no attempt "
-                   "succeeded, none when every attempt succeeded. The flusher's WaitGroup accounting over callbacks is exercised by C01's flushData entries.",
-    "bounds": {"quick": "1..2 streams x 1..2 buffers, <= 5 connect/write operations per run (longer scripts are cut by an assumption); OTLP: <= 3 attempts, 1..2 batches", "thorough": "same"},
+                   "every ConnFactory call and every conn.Write succeeds or fails by symbolic choice, a failing dial may coincide with daemon shutdown, each of 1..2 flush requests (streams "
+                   "with 1..2 pre-filled buffers, as Graphite hands them over) may be cancelled before the sender gets to it, and wherever a select has several ready cases every choice is "
+                   "explored (schedule variable); then the sender is shut down. Two time models: (a) VerifC16_n_m: the one-second reconnect timer has always fired; (b) VerifC16_T_*: the "
+                   "harness owns time - timers fire only when it advances time - and runs 2..3 rounds, each symbolically one of {nothing, cancel the request the sender is holding, advance "
+                   "time, hand over another request}. Asserted: every request handed to the sink gets its completion callback exactly once; a request cancelled while the connection is down "
+                   "is answered when it is cancelled, with an error; a request whose buffers were not all written successfully is answered with a non-empty error list; no error is reported "
+                   "when the transport never failed and the request was not cancelled. VerifC16_Rollover: 101 requests across a connection recycle (maxStreamsPerConnection) with failing "
+                   "dials around it and all flush contexts done. OTLP (HTTP): the real SendMetricsAsync / postMetrics retry loop (errgroup, real back-off against the symbolic clock, "
+                   "max-retries 0..2) against a symbolic per-attempt fault script {200, connection error, 503} for 1..2 batches: callback exactly once, an error whenever some batch (identified "
+                   "by its request body) never had an accepted attempt, none when every attempt succeeded. The flusher's WaitGroup accounting over callbacks is exercised by C01's flushData entries.",
+    "bounds": {"quick": "1..2 streams x 1..2 buffers, <= 3..5 connect/write operations per run (longer scripts are cut by an assumption), <= 3 rounds; rollover: 101 one-buffer streams, <= 4 dials, writes never fail; OTLP: <= 3 attempts, 1..2 batches",
+               "thorough": "adds 2 streams x 2 buffers x 3 rounds with harness-owned time"},
     "outside": ["datadog, influxdb, newrelic, cloudwatch HTTP backends: their payload marshalling goes through jsoniter / the AWS SDK (reflection), not executable by the engine; their "
-                "exactly-once argument (goroutine per batch + collector) is the same shape as OTLP's but is NOT claimed", "statsdaemon's producer that stops early on cancel", "real scheduling"],
-    "assumptions": STUBS_COMMON + [NET_STUBS, TIME_MODEL, "time.NewTimer returns a timer that has already fired"],
+                "exactly-once argument (goroutine per batch + collector) is the same shape as OTLP's but is NOT claimed", "statsdaemon's producer that stops early on cancel", "real scheduling: "
+                "one goroutine runs at a time and runs until it blocks; a counterexample that needs a select to prefer a particular ready case may not reproduce natively (the driver then "
+                "tries the other candidate paths to the same assertion and reports a CHECK-PROBLEM, exit 2, if none reproduces)"],
+    "assumptions": STUBS_COMMON + [NET_STUBS, TIME_MODEL, "time.NewTimer: fired at once (time model a) or pending until verifAdvanceTime (time model b; natively a 1.1 s sleep)"],
     "jobs": [
         {"pkg": "./pkg/backends/sender", "harness": "pkg/backends/sender", "mode": "machine",
          "entries": {"quick": ["VerifC16_1_1", "VerifC16_1_2", "VerifC16_2_1", "VerifC16_2_2", "VerifC16_T_1_1", "VerifC16_T_2_1", "VerifC16_Rollover", "VerifC16_Twin"],
